@@ -1628,7 +1628,10 @@ def extract_constraints(value: Value) -> AbstractConstraint:
         return AndConstraint.make(constraints)
     elif isinstance(value, MultiValuedValue):
         constraints = [extract_constraints(subval) for subval in value.vals]
-        if not constraints:
+        if not constraints or any(cons is NULL_CONSTRAINT for cons in constraints):
+            # A member without a constraint may be truthy or falsy whatever the others
+            # say, so nothing follows from the truthiness of the union; in particular
+            # inverting "A or <nothing>" must not yield "not A".
             return NULL_CONSTRAINT
         return OrConstraint.make(constraints)
     return NULL_CONSTRAINT
